@@ -60,9 +60,13 @@ func try(f func()) (pv any) {
 	return nil
 }
 
-func serve(r *rux.Router, u *url.URL) (code int, body string, pv any) {
+func serve(r *rux.Router, u *url.URL, method ...string) (code int, body string, pv any) {
 	rec := httptest.NewRecorder()
-	pv = try(func() { r.ServeHTTP(rec, &http.Request{Method: "GET", URL: u, Header: http.Header{}}) })
+	m := "GET"
+	if len(method) > 0 {
+		m = method[0]
+	}
+	pv = try(func() { r.ServeHTTP(rec, &http.Request{Method: m, URL: u, Header: http.Header{}}) })
 	return rec.Code, rec.Body.String(), pv
 }
 
@@ -134,9 +138,15 @@ func propStatic(t *rapid.T) {
 			q = decorate(t, strings.ToUpper(fullCore))
 		}
 		ev.Eval()
-		code, body, pv := serve(r, &url.URL{Path: q})
+		// the route allows GET only: a HEAD request reaches it through the HEAD->GET step, which must
+		// normalise the path exactly like the direct lookup
+		method := rapid.SampledFrom([]string{"GET", "GET", "HEAD"}).Draw(t, "method")
+		if method == "HEAD" {
+			ev.Class("request:HEAD-served-by-the-GET-route")
+		}
+		code, body, pv := serve(r, &url.URL{Path: q}, method)
 		if pv != nil {
-			t.Fatalf("strict=%v registered %q: request %q panicked: %v", strict, want, q, pv)
+			t.Fatalf("strict=%v registered %q: %s request %q panicked: %v", strict, want, method, q, pv)
 		}
 		if !model.Stable(q, strict) {
 			ev.Class("request:unstable(totality only)")
@@ -146,11 +156,11 @@ func propStatic(t *rapid.T) {
 		reach := nq == want
 		hit := code == 200 && body == "hit"
 		if reach != hit {
-			t.Fatalf("strict=%v groups=%q registered %q (=%q): request %q normalises to %q, should reach=%v, got %d %q", strict, prefixes, reg, want, q, nq, reach, code, body)
+			t.Fatalf("strict=%v groups=%q registered %q (=%q): %s request %q normalises to %q, should reach=%v, got %d %q", strict, prefixes, reg, want, method, q, nq, reach, code, body)
 		}
-		rt, _, _ := r.Match("GET", q)
+		rt, _, _ := r.Match(method, q)
 		if (rt != nil) != reach {
-			t.Fatalf("strict=%v registered %q (=%q): Match(%q) route=%v, should reach=%v", strict, reg, want, q, rt != nil, reach)
+			t.Fatalf("strict=%v registered %q (=%q): Match(%s, %q) route=%v, should reach=%v", strict, reg, want, method, q, rt != nil, reach)
 		}
 		switch {
 		case reach && q != want:
@@ -216,9 +226,13 @@ func propDynamic(t *rapid.T) {
 			q = path
 		}
 		ev.Eval()
-		code, body, pv := serve(r, &url.URL{Path: q})
+		method := rapid.SampledFrom([]string{"GET", "GET", "HEAD"}).Draw(t, "method")
+		if method == "HEAD" {
+			ev.Class("request:HEAD-served-by-the-GET-route")
+		}
+		code, body, pv := serve(r, &url.URL{Path: q}, method)
 		if pv != nil {
-			t.Fatalf("request %q panicked: %v", q, pv)
+			t.Fatalf("%s request %q panicked: %v", method, q, pv)
 		}
 		if !model.Stable(q, strict) {
 			continue
@@ -227,7 +241,7 @@ func propDynamic(t *rapid.T) {
 		reach := p.Regex().MatchString(nq)
 		hit := code == 200 && strings.HasPrefix(body, "hit:")
 		if reach != hit {
-			t.Fatalf("strict=%v registered %q (=%q): request %q normalises to %q, should reach=%v, got %d %q (values %v)", strict, reg, want, q, nq, reach, code, body, vals)
+			t.Fatalf("strict=%v registered %q (=%q): %s request %q normalises to %q, should reach=%v, got %d %q (values %v)", strict, reg, want, method, q, nq, reach, code, body, vals)
 		}
 		if reach && q != nq {
 			ev.Class("dynamic:reach-decorated")
@@ -330,8 +344,13 @@ func propTotal(t *rapid.T) {
 	if pv := try(func() { r.Group(s2, func() { r.POST(s1, func(c *rux.Context) {}) }) }); pv != nil {
 		t.Fatalf("Group(%q){POST(%q)} panicked: %v", s2, s1, pv)
 	}
-	if pv := try(func() { r.Match("GET", s3) }); pv != nil {
-		t.Fatalf("Match(GET,%q) panicked: %v", s3, pv)
+	for _, m := range []string{"GET", "HEAD", "POST", "OPTIONS"} {
+		if pv := try(func() { r.Match(m, s3) }); pv != nil {
+			t.Fatalf("Match(%s,%q) panicked: %v", m, s3, pv)
+		}
+		if _, _, pv := serve(r, &url.URL{Path: s3}, m); pv != nil {
+			t.Fatalf("%s request with path %q panicked: %v", m, s3, pv)
+		}
 	}
 	if _, _, pv := serve(r, &url.URL{Path: s3}); pv != nil {
 		t.Fatalf("ServeHTTP(%q) panicked: %v", s3, pv)
